@@ -43,10 +43,12 @@ prop("C08", "RS (flat record arrays ranges/mirror: writer arity, reader residues
     lambda p, r: rl.rule_rl(p, r, files=("prosemirror/transform/map.py",)),
     gates("C08"),
     lambda p, r: rn.rule_rsib(p, r, only=(), parts=("maptouch",)),
+    rcustom.rule_copy_fresh,
 ])
 prop("C09", "RU (UTF-16 positions never mixed with code-point counts in any function handling TextNode.text), RS on ResolvedPos.path, RL + ranking on find_index/resolve/node_at, RG gates (bounded child lookup)", [
     lambda p, r: ru.rule_ru(p, r, min_funcs=8),
     lambda p, r: rs.rule_rs_readers(p, r, ("path",)),
+    rcustom.rule_rt3,
     lambda p, r: rl.rule_rl(p, r, files=("prosemirror/model/fragment.py", "prosemirror/model/resolvedpos.py", "prosemirror/model/node.py")),
     lambda p, r: rl.rule_rl_rank(p, r, [("prosemirror/model/fragment.py::Fragment.find_index", "counter"), ("prosemirror/model/resolvedpos.py::ResolvedPos.resolve", "descent"), ("prosemirror/model/node.py::Node.node_at", "descent")]),
     gates("C09"),
@@ -69,11 +71,11 @@ prop("C20", "RL (no stuck cycle path) + ranking variable on find_diff_start/find
     gates("C20"),
 ], [lambda p, r: rl.rule_rl(p, r)])
 
-prop("C02", "RG gates of the replace algorithm (validation through close(), open-depth guards, text merging, range cutting), RU on the text cuts", [gates("C02"), lambda p, r: ru.rule_ru(p, r, files=("prosemirror/model/fragment.py", "prosemirror/model/node.py"))])
+prop("C02", "RG gates of the replace algorithm (validation through close(), open-depth guards, text merging, range cutting), RU on the text cuts, RT3 (0 is a position)", [gates("C02"), rcustom.rule_rt3, lambda p, r: ru.rule_ru(p, r, files=("prosemirror/model/fragment.py", "prosemirror/model/node.py"))])
 prop("C03", "RN (get_map of both replace steps is the documented function of the fields apply uses; size-preserving steps report the empty map), RS-accumulator on StepMap.for_each, RP-add_step (the mapping receives the map of the step just recorded), RG forms of the node-level steps", [rn.rule_rn_formulas, rs.rule_rs_accumulator, rcustom.rule_rp_add_step, gates("C03"), lambda p, r: rn.rule_rsib(p, r, only=(), parts=("trio",))])
 prop("C04", "RG gates of history bookkeeping and of the inverse constructions", [gates("C04"), rn.rule_rn_formulas, rcustom.rule_rp_add_step, rf.rule_rf_accumulators, lambda p, r: rn.rule_rsib(p, r, only=("MarkStep",))])
-prop("C07", "RG gates: each validity predicate contains the conjuncts of the definition of validity", [gates("C07"), rcustom.rule_rc_dep])
-prop("C10", "RF (no in-place write reaches a shared value): RF-mut (every in-place mutation has a fresh receiver or a declared non-value owner), RF-attr (value-type fields assigned only in __init__), RF-acc (accumulators append-only, single writer), RF-json, RD, RG gates on identity shortcuts", [rf.rule_rf_mutations, rf.rule_rf_attr_stores, rf.rule_rf_accumulators, rf.rule_rf_json, rsmall.rule_rd, gates("C10")])
+prop("C07", "RG gates: each validity predicate contains the conjuncts of the definition of validity", [gates("C07"), rcustom.rule_rc_dep, rsmall.rule_rm])
+prop("C10", "RF (no in-place write reaches a shared value): RF-mut (every in-place mutation has a fresh receiver or a declared non-value owner), RF-attr (value-type fields assigned only in __init__), RF-acc (accumulators append-only, single writer), RF-json, RD, RG gates on identity shortcuts", [rf.rule_rf_mutations, rf.rule_rf_attr_stores, rf.rule_rf_accumulators, rf.rule_rf_json, rsmall.rule_rd, rcustom.rule_copy_fresh, gates("C10")])
 prop("C11", "RP-fitter (placed / frontier-match pairing, frontier pushes), RG gates of the fitter (mark filter on placement, isolating barrier), RT on NodeType.allowed_marks", [rcustom.rule_rp_fitter, gates("C11"), lambda p, r: rt.rule_rt(p, r, only={"prosemirror/model/schema.py::NodeType.allowed_marks"})])
 prop("C13", "RG gates of the mark planners (coalescing conditions, permission), RT on Mark.add_to_set, RU on clear_incompatible", [gates("C13"), lambda p, r: rt.rule_rt(p, r, only={"prosemirror/model/mark.py::Mark.add_to_set"}), lambda p, r: ru.rule_ru(p, r, files=("prosemirror/transform/transform.py",))])
 prop("C15", "RG gates of the fill and wrapper searches (generatable guard, seen-set discipline, BFS order)", [gates("C15")])
